@@ -127,6 +127,11 @@ func runC16(res *Result, d *Driver, tier string, seed uint64) {
 		cases = append(cases, kc{m, "random"})
 	}
 	cases = append(cases, kc{"build-initcmd", "random"})
+	// the tracer is killed shortly AFTER the synchronisation: the child is then between the sync and its first ptrace stop
+	// (where PTRACE_O_EXITKILL is set) — the window of the repaired "stopped launcher left behind" defect
+	for k := 0; k < 8; k++ {
+		cases = append(cases, kc{"ptrace", "after-sync"})
+	}
 	for _, p := range []string{"host.execve.sent", "host.waitForDone"} {
 		cases = append(cases, kc{"execve", p}, kc{"execve-syncafter", p})
 	}
@@ -134,7 +139,7 @@ func runC16(res *Result, d *Driver, tier string, seed uint64) {
 	if tier == "thorough" {
 		reps = 20
 	}
-	const bound = 3 * time.Second
+	const bound = 10 * time.Second
 	for rep := 0; rep < reps; rep++ {
 		for _, c := range cases {
 			cmd := exec.Command(self, "c16-controller", c.mode)
@@ -193,6 +198,10 @@ func runC16(res *Result, d *Driver, tier string, seed uint64) {
 						}
 						cmd.Process.Kill()
 						killed = true
+					} else if c.point == "after-sync" && progPid > 0 {
+						time.Sleep(time.Duration(rng.Intn(1500)) * time.Microsecond)
+						cmd.Process.Kill()
+						killed = true
 					} else if c.point == "random" && (initPid > 0 || progPid > 0 || c.mode == "ptrace") {
 						cmd.Process.Kill()
 						killed = true
@@ -228,7 +237,27 @@ func runC16(res *Result, d *Driver, tier string, seed uint64) {
 			res.Case(key+itoa(rep), true, key)
 			res.Traces++
 			if len(left) > 0 {
-				res.Mismatch(Mismatch{Kind: "oracle", What: "controller killed: sandboxed processes still alive after the bound (C16)", Input: key, Impl: fmt.Sprintf("alive pids %v (init %d ns %s prog %d)", left, initPid, ns, progPid), Oracle: "violates"})
+				// what is it that survived? a launcher child that never reached exec (still the controller's image, stopped) is a
+				// different thing from a running program
+				var desc []string
+				allLauncher := c.mode == "ptrace"
+				for _, p := range left {
+					exe, _ := os.Readlink(fmt.Sprintf("/proc/%d/exe", p))
+					st, _ := os.ReadFile(fmt.Sprintf("/proc/%d/stat", p))
+					state := "?"
+					if i := strings.LastIndex(string(st), ") "); i >= 0 && len(st) > i+2 {
+						state = string(st[i+2 : i+3])
+					}
+					desc = append(desc, fmt.Sprintf("%d exe=%s state=%s", p, exe, state))
+					if exe != self || (state != "T" && state != "t") {
+						allLauncher = false
+					}
+				}
+				mkey := ""
+				if allLauncher {
+					mkey = "tracer-killed-before-first-stop"
+				}
+				res.Mismatch(Mismatch{Kind: "oracle", What: "controller killed: sandboxed processes still alive after the bound (C16)", Input: key, Impl: fmt.Sprintf("alive %v (init %d ns %s prog %d)", desc, initPid, ns, progPid), Oracle: "violates", Key: mkey})
 				for _, p := range left {
 					syscall.Kill(p, syscall.SIGKILL)
 				}
